@@ -31,6 +31,14 @@ func run(t *testing.T, prop string, x any, cfg simrt.Config) *eng.Outcome {
 	}
 	o := &eng.Outcome{Res: res, Faults: map[string]int{}, Probes: map[string]int{}}
 	c := &octx{prop: prop, sc: sc, mod: mod, obs: obs, res: res, out: o}
+	if prop == "C18" && sc.Ctx.Kind == "cancel" {
+		// judged on the log alone (a cancelled batch is outside the exact model)
+		o.V = oracle(c)
+		if !mod.TooLong && !mod.Unpredicted {
+			c.account()
+		}
+		return o
+	}
 	if mod.TooLong || mod.Unpredicted {
 		// the generator bounds paths and keeps cancellations out of batches for
 		// the exact oracles; a shrink candidate may not: not a verdict
